@@ -28,6 +28,7 @@ AREA_RW = 0x20000000
 AREA_RO = 0x20002000
 AREA_NONE = 0x20004000
 AREA_RWX = 0x20006000
+AREA_WO = 0x20008000       # writable, not readable (pure stores must succeed, loads and read-modify-write must fail)
 STACK = 0x30000000
 AREA_HI = 0x120000000      # above 4 GiB: segment base + 32-bit offset must not be truncated
 PAGE = 0x1000
@@ -245,7 +246,9 @@ def make_state(rng, cand, d, rip, want_fault=None, force_T=None):
     placement = "none"
     if has_mem:
         r = rng.random()
-        if r < 0.62:
+        if r < 0.03:
+            placement, T = "wo", AREA_WO + rng.randrange(0x40, PAGE - 0x40) & ~0xF
+        elif r < 0.62:
             placement, T = "rw", AREA_RW + rng.randrange(0x40, PAGE - 0x40)
             if rng.random() < 0.5:
                 T &= ~0xF
@@ -323,7 +326,7 @@ def make_state(rng, cand, d, rip, want_fault=None, force_T=None):
         return bytes(rng.randrange(256) if rng.random() < 0.7 else rng.choice([0, 0xff, 0x80, 0x7f]) for _ in range(n))
     # data: sparse random windows to keep the case text small
     areas = []
-    for start, prot in ((AREA_RW, 3), (AREA_RO, 1), (AREA_NONE, 0), (AREA_RWX, 7), (STACK, 3), (AREA_HI, 3)):
+    for start, prot in ((AREA_RW, 3), (AREA_RO, 1), (AREA_NONE, 0), (AREA_RWX, 7), (AREA_WO, 2), (STACK, 3), (AREA_HI, 3)):
         areas.append([start, PAGE, prot, {}])
     code = code[:ln]
     case = dict(named=[d[x] for x in ("r0", "r1", "r2", "r3", "base", "index")], seg=d["seg"], base=d["base"], nb64=int(d["nb64"], 16), code=bytes(code), rip=rip, regs=regs, xmm=xmm, flags=flags, fs=fs, gs=gs, areas=areas,
